@@ -65,6 +65,8 @@ PROBES = {
         "slice:checked",
         "cut:checked",
         "insert:block-starting-in-delay-slot",
+        "graph:sweep-object's-own",
+        "resweep-after-insertions",
     ]
 }
 
@@ -201,6 +203,9 @@ class CaseGen(object):
         name = weighted(r, [(n, ISA_W.get(n, 1)) for n in self.names])
         code, src = self.region(r, name)
         case = {"op": "case", "isa": name, "code": code.hex(), "src": src}
+        # the graph the blocks go into: the sweep object's own graph (what amoco's
+        # analyses do) or a separate one
+        case["own"] = r.random() < 0.5
         return case
 
     def history(self, r, bounds):
@@ -217,6 +222,9 @@ class CaseGen(object):
                 ops.append({"op": "add", "a": r.choice(S)})  # re-insertion (possibly of a later one: order)
             elif x < 0.3 and len(ops) >= 2:
                 ops.append({"op": "edge", "x": r.choice(S), "y": r.choice(S)})
+            if r.random() < 0.15:
+                ops.append({"op": "resweep", "a": r.choice(bounds)})
+        ops.append({"op": "resweep", "a": r.choice(bounds)})
         return ops
 
 
@@ -265,7 +273,9 @@ class Case(object):
         self.log.event(op["isa"], op["code"])
         self.prog = RawExec(shellcode(DataIO(self.code)), self.cpu)
         self.z = lsweep(self.prog)
-        self.G = cfg.graph()
+        self.G = self.z.G if op.get("own") else cfg.graph()
+        if op.get("own"):
+            st.hit("probe:graph:sweep-object's-own")
         self.inserted = {}  # address -> length of every inserted instruction
         self.n_insert = 0
         self.n_met = 0
@@ -373,6 +383,26 @@ class Case(object):
             raise Failure("block-support", "cfgsim:block:support", {"tag": tag, "support": [str(sup[0]), str(sup[1])], "want": [a, a + L], "length": b.length})
         if b.raw() != b"".join(bytes(i.bytes) for i in rb):
             raise Failure("block-raw", "cfgsim:block:raw", {"tag": tag, "at": a})
+
+    def resweep(self, a):
+        """the sweep is a function of the code region: whatever has been inserted into
+        any graph meanwhile, the instruction stream and the blocks are what they were"""
+        instrs = self.sweep(0)
+        if [(_v(i.address), i.length) for i in instrs] != [(_v(i.address), i.length) for i in self.instrs]:
+            raise Failure("sweep-changed-after-insertions", "cfgsim:resweep:sequence", {"got": [_v(i.address) for i in instrs], "ref": self.bounds})
+        got = list(self.z.iterblocks(0))
+        if [[_v(i.address) for i in b.instr] for b in got] != [[_v(i.address) for i in b] for b in self.refblocks]:
+            raise Failure(
+                "blocks-not-maximal-runs",
+                "cfgsim:resweep:boundaries",
+                {"got": [[_v(i.address) for i in b.instr] for b in got], "ref": [[_v(i.address) for i in b] for b in self.refblocks]},
+            )
+        if a in self.blockend:
+            b = self.z.getblock(a)
+            if b is None or (_v(b.support[0]), _v(b.support[1])) != (a, self.blockend[a]):
+                raise Failure("getblock-boundaries", "cfgsim:getblock:boundaries", {"at": a, "support": None if b is None else [str(b.support[0]), str(b.support[1])], "want": [a, self.blockend[a]]})
+        self.st.hit("probe:resweep-after-insertions" if self.n_insert else "resweep-before-insertions")
+        self.log.event("resweep", a)
 
     def slice_and_cut(self, r_choice):
         """b[i:j] and b.cut(addr) at instruction boundaries (seeded choice r_choice in [0,1))"""
@@ -601,6 +631,8 @@ def run(spec):
                 case.edge(op["x"], op["y"])
             elif op["op"] == "slicecut":
                 case.slice_and_cut(op["x"])
+            elif op["op"] == "resweep":
+                case.resweep(op["a"])
         except Failure as f:
             viol = {"class": f.vclass, "signature": f.sig, "detail": dict(f.detail, op=op, isa=case.name if case else op.get("isa"))}
         except Exception as e:
